@@ -94,6 +94,21 @@ Theorem C14_pass_eliminable (r : env) (mt : list name) (m : model) :
 Proof. exact (sound_eliminate_vars r mt m). Qed.
 Print Assumptions C14_pass_eliminable.
 
+(* eliminable DIFFERENTIATED STATES (get_derivative: promotion of algebraic symbols to states with
+   a fresh der symbol, look-through of already eliminated variables (ab3b403), chain rule): the pass
+   is in the executable model and in the correspondence.  Pointwise the pass ADDS the differentiated
+   definitions der(x) = d/dt(value) (`snd (elim2_defs ..)`): they are not consequences of the
+   algebraic equations at one time instant, so the equivalence is relative to them.
+   Partial: not proved that `dexpr` is the time derivative of the value along a trajectory (a
+   dual-number semantics of the expression type), nor that this pass composes in C14_preserves
+   (there `no_elim_state` is a hypothesis). *)
+Theorem C14_pass_eliminable_states_partial (r : env) (dermap : list (name * name)) (mt : list name) (m : model) :
+  acyclic (fst (elim2_defs dermap mt m)) -> failed m = false ->
+  failed (eliminate_vars2 dermap mt m) = false ->
+  (sat r m /\ facts r (snd (elim2_defs dermap mt m)) <-> sat r (eliminate_vars2 dermap mt m)).
+Proof. exact (sound_eliminate_vars2 r dermap mt m). Qed.
+Print Assumptions C14_pass_eliminable_states_partial.
+
 (* replace_constant_values incl. constants whose values are expressions in other constants *)
 Theorem C14_pass_replace_constant_values_partial (r : env) (m : model) :
   acyclic (const_defs m) -> no_const_canonical m -> failed (replace_const_values m) = false ->
